@@ -66,6 +66,7 @@ structure Config where
   t2After : Nat                 -- T2 exists once T0 has finished its first `t2After` script entries
   faults : List (Nat × Fault)   -- (k, f): the k-th readv/writev on the descriptor (1-based)
   avail0 : Nat
+  nOps : Nat := 1               -- number of operations the scripts use
 
 structure OpSt where
   len : Nat
@@ -118,7 +119,7 @@ structure St where
 def OpSt.init : OpSt := ⟨0, 0, 0, 0, false, 0, 0, 0, 0, false, 0, 0⟩
 
 def init (cfg : Config) : St :=
-  { ops := [OpSt.init, OpSt.init], t0 := ⟨0, 0⟩, t2 := ⟨0, 0⟩, lq := [], rq := [], batch := [],
+  { ops := List.replicate cfg.nOps OpSt.init, t0 := ⟨0, 0⟩, t2 := ⟨0, 0⟩, lq := [], rq := [], batch := [],
     lpc := 0, cur := (0, 0), pend := 0, avail := cfg.avail0, reg := 0, calls := 0,
     fenceIssued := 0, fences := 0, bad := 0 }
 
@@ -309,7 +310,7 @@ def safe (cfg : Config) (s : St) : Bool :=
     (o.outcome != 1 || o.sysOk == o.val + 1) &&
     (o.outcome != 2 || o.stopReq)) &&
   ((sys cfg).next s |>.isEmpty |> fun dead => !dead || final cfg s) &&
-  (!final cfg s || (List.range 2).all (fun i => !started cfg i || (getOp s i).completions == 1))
+  (!final cfg s || (List.range cfg.nOps).all (fun i => !started cfg i || (getOp s i).completions == 1))
 
 /-- What C14 demands in addition and the code does NOT always deliver:
     no access to a completed operation, no event for a completed operation, and at the end no
@@ -357,15 +358,15 @@ def decSt (l : List Nat) : St :=
     let (bt, _) := decItemList r3
     { ops := ops, t0 := ⟨a, b⟩, t2 := ⟨c, d⟩, lq := lq, rq := rq, batch := bt, lpc := lpc, cur := (c1, c2),
       pend := pend, avail := av, reg := reg, calls := calls, fenceIssued := fi, fences := fe, bad := bad }
-  | _ => { init ⟨false, [], [], 0, [], 0⟩ with bad := 99 }
+  | _ => { init ⟨false, [], [], 0, [], 0, 0⟩ with bad := 99 }
 
 def coded : Coded St :=
-  { enc := fun s => packNats 32 (encSt s), dec := fun n => decSt (unpackNats 32 120 n), M := 4093, W := 340 }
+  { enc := fun s => packNats 32 (encSt s), dec := fun n => decSt (unpackNats 32 120 n), M := 4093, W := 240 }
 
 /-! ### the scenario configurations (mirrored one-to-one by harness/rt/scn_c14.cpp) -/
 
-def rd (t0 t2 : List Op) (t2After : Nat) (faults : List (Nat × Fault)) : Config :=
-  ⟨false, t0, t2, t2After, faults, 0⟩
+def rd (t0 t2 : List Op) (t2After : Nat) (faults : List (Nat × Fault)) (nOps : Nat := 1) : Config :=
+  ⟨false, t0, t2, t2After, faults, 0, nOps⟩
 
 /-- data is in the pipe before the read starts -/
 def cfgRdReady : Config := rd [.feed 5, .start 0 8, .await 0] [] 0 []
@@ -374,26 +375,26 @@ def cfgRdPark : Config := rd [.start 0 8, .feed 5, .await 0] [] 0 []
 /-- spurious EAGAIN (fault) although data is there -/
 def cfgRdEagainFault : Config := rd [.feed 5, .start 0 8, .await 0] [] 0 [(1, .eagain)]
 /-- short count, then a second read gets the rest -/
-def cfgRdShort : Config := rd [.feed 5, .start 0 8, .await 0, .start 1 8, .await 1] [] 0 [(1, .short 2)]
+def cfgRdShort : Config := rd [.feed 5, .start 0 8, .await 0, .start 1 8, .await 1] [] 0 [(1, .short 2)] 2
 /-- cancel while parked (T2), then the descriptor is reused by a later read -/
 def cfgRdCancelParked : Config :=
-  rd [.start 0 8, .fence, .await 0, .join2, .feed 4, .start 1 8, .await 1] [.cancel 0] 2 []
+  rd [.start 0 8, .fence, .await 0, .join2, .feed 4, .start 1 8, .await 1] [.cancel 0] 2 [] 2
 /-- data and cancellation race -/
 def cfgRdCancelRace : Config := rd [.start 0 8, .feed 5, .await 0, .join2] [.cancel 0] 1 []
 /-- stop requested before the operation is started; the descriptor is used again afterwards -/
 def cfgRdCancelBeforeStart : Config :=
-  rd [.cancel 0, .start 0 8, .await 0, .feed 4, .fence, .start 1 8, .await 1] [] 0 []
+  rd [.cancel 0, .start 0 8, .await 0, .feed 4, .fence, .start 1 8, .await 1] [] 0 [] 2
 /-- the first readv fails with EIO (errno 5) -/
 def cfgRdErrorStart : Config := rd [.start 0 8, .fence, .await 0, .join2] [.cancel 0] 2 [(1, .err 5)]
 /-- the retry after readiness fails with EIO -/
 def cfgRdErrorRetry : Config := rd [.start 0 8, .fence, .feed 5, .await 0] [] 0 [(2, .err 5)]
 
 /-- write into a pipe that has room -/
-def cfgWrReady : Config := ⟨true, [.start 0 8, .await 0], [], 0, [], 16⟩
+def cfgWrReady : Config := ⟨true, [.start 0 8, .await 0], [], 0, [], 16, 1⟩
 /-- write into a full pipe: parks until the environment drains it -/
-def cfgWrPark : Config := ⟨true, [.start 0 8, .fence, .feed 16, .await 0], [], 0, [], 0⟩
+def cfgWrPark : Config := ⟨true, [.start 0 8, .fence, .feed 16, .await 0], [], 0, [], 0, 1⟩
 /-- write into a full pipe, cancelled while parked -/
-def cfgWrCancelParked : Config := ⟨true, [.start 0 8, .fence, .await 0, .join2], [.cancel 0], 2, [], 0⟩
+def cfgWrCancelParked : Config := ⟨true, [.start 0 8, .fence, .await 0, .join2], [.cancel 0], 2, [], 0, 1⟩
 
 def configs : List (String × Config) :=
   [("rd_ready", cfgRdReady), ("rd_park", cfgRdPark), ("rd_eagain_fault", cfgRdEagainFault),
